@@ -1,4 +1,5 @@
 //@host src/io_loop/mod.rs
+//@quick (generic sweep without wall-clock dependence: also runs in the quick tier, labelled bounded)
 // C16 bounded stand-in: every server behaviour of the form (reaction to the protocol header, reaction to StartOk, reaction to TuneOk+Open),
 // each reaction drawn from the handshake alphabet {Start (ok / without our mechanism / without our locale), Secure, Tune (frame_max 0, 4096,
 // 131072, 1000), OpenOk, Close(530), a heartbeat followed by the expected frame, drop the connection}, played by a scripted in-memory broker
